@@ -307,6 +307,27 @@ func c13Patch(r *rand.Rand) Case {
 	// at the source only
 	if vfMode == "only" && err == nil && len(fail) == 0 {
 		vf := ym["valueFrom"].(string)
+		if srcl, ok := d.Lookup(vf).(dom.ListBuilder); ok {
+			// a list source: write into its first container item
+			for ii, it := range srcl.Items() {
+				if itc, ok := it.(dom.ContainerBuilder); ok {
+					expect := deepCopy(after).(map[string]any)
+					if tgt, found := plookup(expect, parsePPath(vf)); found {
+						if tl, isL := tgt.([]any); isL && ii < len(tl) {
+							if tm, isMap := tl[ii].(map[string]any); isMap {
+								tm["zz_probe"] = 1
+								itc.AddValue("zz_probe", dom.LeafNode(1))
+								if !reflect.DeepEqual(nodeToAny(d), any(expect)) {
+									fail = append(fail, "an item of the list inserted through valueFrom is shared with the source list's item")
+								}
+								itc.Remove("zz_probe")
+							}
+						}
+					}
+					break
+				}
+			}
+		}
 		if src, ok := d.Lookup(vf).(dom.ContainerBuilder); ok {
 			expect := deepCopy(after).(map[string]any)
 			if tgt, found := plookup(expect, parsePPath(vf)); found {
@@ -701,6 +722,14 @@ func c13Lenient(r *rand.Rand) Case {
 	// a render that failed half-way leaves nothing behind for the next one
 	if after, aerr := c13Engine.Render("{{ .x }} ok", data); aerr != nil || after != "X ok" {
 		fail = append(fail, fmt.Sprintf("after rendering %q, the template \"{{ .x }} ok\" rendered %q (err=%v)", s, after, aerr))
+	}
+	// lenient rendering decides anew every time: a text that failed against one data renders against another
+	probe := fmt.Sprintf("{{ .v%d | upper }}-%d", len(s), len(s))
+	if l1 := c13Engine.RenderLenient(probe, data); l1 != probe {
+		fail = append(fail, fmt.Sprintf("RenderLenient(%q) against data without the key = %q, expected the text unchanged", probe, l1))
+	}
+	if l2 := c13Engine.RenderLenient(probe, map[string]any{fmt.Sprintf("v%d", len(s)): "val"}); l2 != fmt.Sprintf("VAL-%d", len(s)) {
+		fail = append(fail, fmt.Sprintf("RenderLenient(%q) against data WITH the key = %q after it had failed once", probe, l2))
 	}
 	if lafter := c13Engine.RenderLenient("plain-{{ .x }}", data); lafter != "plain-X" {
 		fail = append(fail, fmt.Sprintf("after rendering %q, RenderLenient(\"plain-{{ .x }}\") = %q", s, lafter))
